@@ -241,3 +241,8 @@ End Printable.
 (* the token after a value in printed text *)
 Definition follows (t : tok) : bool :=
   match t with KComma | KRBracket | KRBrace | KRocket | KEnd => true | _ => false end.
+
+(* the weakest condition on the token after a value for the value to be read as printed: not the start of an
+   argument list (handleTypeArgs, parser.go:391, would take `Name [` / `Name {` / `Name (` for a parameterized type) *)
+Definition no_args (t : tok) : bool :=
+  match t with KLBracket | KLBrace | KLParen => false | _ => true end.
